@@ -219,6 +219,7 @@ class Run:
 
 # -------------------------------------------------------------------- findings
 def fingerprint(prop, mm):
+    mm = dict(mm, got=re.sub(r"\d+", "N", str(mm.get("got", "")))[:80])
     return "%s|%s|%s|%s|%s>%s|%s" % (prop, mm.get("ev", ""), mm.get("label", ""), re.sub(r"/.*", "", mm.get("api", "")),
                                       mm.get("exp", ""), mm.get("got", ""), mm.get("detail", ""))
 
